@@ -8,7 +8,8 @@ THEOREMS = ["program_started_at_most_once_per_activation", "one_pending_activati
             "held_messages_once_in_arrival_order", "nothing_pending_nothing_sent", "allowed_held_message_is_delivered",
             "start_callers_answered_once", "failure_each_waiter_one_error", "connected_waiter_gets_the_error",
             "timeout_fails_every_waiter", "clean_exit_is_ignored", "stale_program_exit_is_silent",
-            "helper_executes_iff", "helper_refuses_invalid_name", "helper_refuses_other_name"]
+            "helper_executes_iff", "helper_refuses_invalid_name", "helper_refuses_other_name",
+            "joining_keeps_the_start_deadline", "start_deadline_is_fixed", "one_timeout_per_due_activation"]
 
 RESTRICTIVE = busdiff.Policy(busdiff.SESSION.rules + [
     ("default", False, {"receive_interface": "a.b.c"}),                       # refused only once the recipient is known
@@ -45,6 +46,22 @@ def scripts():
     return out
 
 
+def deadline_scripts():
+    """the start timeout is a property of the activation, fixed when the program is started: later waiters join it and do
+    not move it (T = 1000 s; the clock only moves by 450 s or 700 s, so no deadline is ever closer than 100 s)"""
+    def call(s, dest, member="M", flags=0):
+        return method_call(s, dest, "/x", "a.b", member, "s", [b"p"], flags=flags).marshal()
+    def start(s, name):
+        return method_call(s, BUS, BUS_PATH, BUS, "StartServiceByName", "su", [name.encode(), 0]).marshal()
+    base = [("connect", 0, 0, False), ("send", 0, H())] + [x for c in (1, 2, 3) for x in (("connect", c, 0, False), ("send", c, H()))]
+    out = []
+    out.append(base + [("send", 1, call(5, "com.example.A")), ("advance", 700000), ("send", 2, call(5, "com.example.A")), ("send", 3, start(5, "com.example.A")),
+                       ("advance", 450000), ("send", 1, call(6, "com.example.A")), ("advance", 450000), ("advance", 700000)])
+    out.append(base + [("send", 1, call(5, "com.example.A")), ("advance", 450000), ("send", 2, call(5, "com.example.B")), ("advance", 450000),
+                       ("send", 3, call(5, "com.example.A")), ("send", 3, call(6, "com.example.B")), ("advance", 450000), ("advance", 450000), ("advance", 450000)])
+    return out
+
+
 SCRIPT_FILES = actgen.DEFAULT_FILES + [("s1.service", "com.example.S1", "shared", "S"), ("s2.service", "com.example.S2", "shared", "S")]
 
 
@@ -59,6 +76,11 @@ def run(ctx):
     actcheck.run_histories(ctx, n // 2, 70, svc, gen_kw={"max_conns": 5}, policy=RESTRICTIVE, seed_salt=3, label="activation-with-denials")
     actcheck.run_histories(ctx, n // 3, 60, actdiff.Svc(actgen.DEFAULT_FILES, pending=2), gen_kw={"max_conns": 4}, seed_salt=5,
                            label="pending-limit-2")
+    # deadlines: the clock moves in steps of 450 s and 700 s against a start timeout of 1000 s
+    slow = actdiff.Svc(actgen.DEFAULT_FILES, start_timeout=1000000)
+    actcheck.run_histories(ctx, 0, 0, slow, scripts=deadline_scripts(), label="deadline-scenarios")
+    actcheck.run_histories(ctx, n // 2, 60, slow, gen_kw={"max_conns": 4, "weights": {"advance": 9, "actsleep": 0, "svcexit": 3, "call": 30, "startsvc": 12}},
+                           seed_salt=7, label="deadlines")
 
 
 def replay(path):
